@@ -464,8 +464,9 @@ def run(chk, tier):
     libs = {}
     lib_extra = []
     if not quick:
-        lib_extra = [("-Zdb", "-Cstandard", "-Csmax=50", "-Clines"), ("-Cold", "-Csmax=5", "-Cno-lines"), ("-Zdb", "-Cold", "-Csmax=0", "-Clines"),
-                     ("-Cstandard", "-Csmax=1", "-Cno-lines")]
+        # (splitting the 45 library units at every statement gives some 30000 files: -Csmax=1 and 5 are left to the programs)
+        lib_extra = [("-Zdb", "-Cstandard", "-Csmax=50", "-Clines"), ("-Cold", "-Csmax=200", "-Cno-lines"), ("-Zdb", "-Cold", "-Csmax=0", "-Clines"),
+                     ("-Cstandard", "-Csmax=20", "-Cno-lines")]
     with concurrent.futures.ThreadPoolExecutor(max_workers=3) as ex:
         futs2 = {o: ex.submit(build_libs, b, o) for o in lib_extra}
         for i, f in f_libs.items():
